@@ -84,6 +84,16 @@ var flattenStream = (&StreamSpec{
 				}
 			}
 		}
+		// known cause (finding D18): an inline complex schema in a path-level body parameter gets one candidate name per
+		// operation of the path; when two of those names are equal up to letter case the second one is an OAIGen name and
+		// the follow-up rewriting fails on nested inline schemas
+		if sharedParamNameTwins(get(c.In, "bundle", "root")) {
+			for i := range fs {
+				if strings.Contains(fs[i].Signature, ":error:") || strings.Contains(fs[i].Signature, ":error-on-repeat:") {
+					fs[i].Signature = "flatten:path-level-body-schema-named-per-operation-with-case-twin-names"
+				}
+			}
+		}
 		// known cause (finding D17): an operation without operationId whose derived key equals the explicit id of another
 		// operation: GatherOperations registers both under one name, one of them gets no candidate name (deterministically)
 		if idlessKeyEqualsID(get(c.In, "bundle", "root")) {
@@ -190,6 +200,52 @@ func idlessKeyCollision(doc any) bool {
 				return true
 			}
 			seen[k] = true
+		}
+	}
+	return false
+}
+
+// sharedParamNameTwins: a path item with an inline complex body schema among its path-level parameters, nested one level
+// at least, and two operations whose (mangled) ids are equal up to letter case.
+func sharedParamNameTwins(doc any) bool {
+	paths, _ := get(doc, "paths").(map[string]any)
+	for p, pi := range paths {
+		pm, _ := pi.(map[string]any)
+		nested := false
+		if ps, ok := pm["parameters"].([]any); ok {
+			for _, prm := range ps {
+				sch, _ := get(prm, "schema").(map[string]any)
+				props, _ := sch["properties"].(map[string]any)
+				for _, v := range props {
+					if vm, ok := v.(map[string]any); ok {
+						if _, has := vm["properties"]; has {
+							nested = true
+						}
+					}
+				}
+			}
+		}
+		if !nested {
+			continue
+		}
+		var names []string
+		for _, m := range allMethods {
+			op, ok := pm[m].(map[string]any)
+			if !ok {
+				continue
+			}
+			id, _ := op["operationId"].(string)
+			if id == "" {
+				id = swag.ToGoName(m + " " + p)
+			}
+			names = append(names, swag.ToJSONName(id+" params body"))
+		}
+		for i := range names {
+			for j := i + 1; j < len(names); j++ {
+				if names[i] != names[j] && strings.EqualFold(names[i], names[j]) {
+					return true
+				}
+			}
 		}
 	}
 	return false
